@@ -24,6 +24,9 @@ FB = [
     # only the *leading* get_ is removed
     dict(site="c1.fb_widget", owner="c1", meth="get_widget_count", key=None, hint=int, nt="/components/c1/widget_count", topic="IntegerTopic"),
     dict(site="robot.fb_budget", owner="robot", meth="get_budget_left", key=None, hint=None, nt="/robot/budget_left", topic=None),
+    # private-looking method names are feedbacks like any other
+    dict(site="c1.fb_raw", owner="c1", meth="_raw_counts", key=None, hint=int, nt="/components/c1/_raw_counts", topic="IntegerTopic"),
+    dict(site="robot.fb_limit", owner="robot", meth="_limit_hit", key="at_limit", hint=bool, nt="/robot/at_limit", topic="BooleanTopic"),
     # variable-length homogeneous tuple hint: an array topic of the element type, whatever the values look like
     dict(site="c2.fb_tup", owner="c2", meth="get_tup", key=None, hint=tuple[float, ...], nt="/components/c2/tup", topic="DoubleArrayTopic"),
 ]
